@@ -30,7 +30,7 @@ ANCHORS = [
     "acnportal.acnsim.analysis:aggregate_current",
     "acnportal.acnsim.analysis:total_energy_delivered",
 ]
-REQUIRED = ["stochastic_runs_judged", "stochastic_runs_with_early_departure", "stochastic_cells_checked", "runs_judged", "sessions_reconciled", "charge_calls_logged", "vacant_cells_checked", "vacant_station_pilots",
+REQUIRED = ["resumed_runs_judged", "resumed_after_json", "stochastic_runs_judged", "stochastic_runs_with_early_departure", "stochastic_cells_checked", "runs_judged", "sessions_reconciled", "charge_calls_logged", "vacant_cells_checked", "vacant_station_pilots",
             "battery_json_dumps", "regime:heterogeneous-voltage", "regime:noise-battery", "regime:two-stage", "regime:ideal"]
 BUDGET_S = {"quick": 240, "thorough": 3000}
 
@@ -70,6 +70,9 @@ def cases(seed, tier):
         else:
             d = gen.scenario(rng, sched="sorted", kinds=("EVSE", "FR"), noise_p=0.3)
         out.append({"desc": d})
+    for i in range(n // 6):
+        d = gen.scenario(rng, sched=rng.choice(["scripted", "uncontrolled"]), noise_p=0.0)
+        out.append({"desc": d, "resumed_at": rng.choice([1, 2, 4, 7])})
     from props.c19 import gen_history
     for i in range(n // 5):
         out.append({"desc": gen_history(rng), "stochastic": True, "rseed": rng.randrange(1 << 30)})
@@ -150,10 +153,98 @@ def _run_stochastic(case, obs):
                   "swaps": sim.network.swaps, "charge_calls": len(log), "total_energy": tot}
 
 
+def _run_resumed(case, obs):
+    """The ledger of a run that was interrupted in period k, written to JSON, loaded and resumed: what was recorded before
+    and after the checkpoint must still be one consistent ledger per station and session."""
+    from acnportal import acnsim
+    from acnportal.acnsim import Simulator
+    d, k = case["desc"], case["resumed_at"]
+    sim, evs = build.build_sim(d)
+    orig = sim.scheduler.run
+    fired = []
+
+    class _Stop(Exception):
+        pass
+
+    def flaky():
+        if sim.iteration >= k and not fired:
+            fired.append(1)
+            raise _Stop()
+        return orig()
+
+    sim.scheduler.run = flaky
+    wit = dict(scenario=d, checkpoint_period=k)
+    with warnings.catch_warnings():
+        warnings.simplefilter("ignore")
+        try:
+            sim.run()
+        except _Stop:
+            sim.scheduler.run = orig
+            s2 = Simulator.from_json(sim.to_json())
+            s2.update_scheduler(sim.scheduler)
+            sim = s2
+            obs.ev("resumed_after_json")
+            try:
+                sim.run()
+            except Exception as e:
+                obs.violate("run_raised", f"resumed run: {type(e).__name__}: {e}", **wit)
+                return
+        except Exception as e:
+            obs.violate("run_raised", f"{type(e).__name__}: {e}", **wit)
+            return
+    obs.ev("resumed_runs_judged")
+    ids = list(sim.network.station_ids)
+    row = {st: i for i, st in enumerate(ids)}
+    volt = {s_["id"]: s_["voltage"] for s_ in d["network"]["stations"]}
+    per = d["period"]
+    cr = sim.charging_rates
+    T = sim.iteration
+    tol = lambda x: 1e-9 * max(1.0, abs(x))
+    model = simrun.occupant_model(d)
+    if sorted(ids) != sorted(volt):
+        obs.violate("station_set_changed", f"{ids}", **wit)
+        return
+    for s_ in d["sessions"]:
+        ev = sim.ev_history.get(s_["id"])
+        if ev is None:
+            obs.violate("session_missing_from_history", s_["id"], **wit)
+            continue
+        i = row[s_["station"]]
+        e_rates = float(sum(cr[i, t] for t in range(s_["arrival"], min(s_["departure"], cr.shape[1])))) * volt[s_["station"]] / 1000.0 * per / 60.0
+        obs.ev("sessions_reconciled")
+        if not abs(ev.energy_delivered - e_rates) <= tol(e_rates):
+            obs.violate("energy_vs_recorded_rates", f"after a JSON checkpoint in period {k}: session {s_['id']}: energy_delivered "
+                        f"{ev.energy_delivered!r}, sum(rate*V*dt) on its station row {e_rates!r}", session=s_, **wit)
+            break
+        b = ev_battery(ev)
+        c_now = battery_state(b)[0] if b is not None else None
+        if c_now is not None and not abs((c_now - s_["battery"]["init"]) - ev.energy_delivered) <= tol(e_rates) + 1e-12 * s_["battery"]["cap"]:
+            obs.violate("energy_vs_battery_charge", f"after a JSON checkpoint: session {s_['id']}: battery gained {c_now - s_['battery']['init']!r}, "
+                        f"energy_delivered {ev.energy_delivered!r}", **wit)
+            break
+    for i, st in enumerate(ids):
+        for t in range(T):
+            if simrun.occupant_at(model, st, t) is None and cr[i, t] != 0:
+                obs.violate("rate_on_vacant_station", f"after a JSON checkpoint: station {st} period {t}: recorded rate {cr[i, t]!r} with no EV connected", **wit)
+                return
+    agg = [float(sum(cr[i, t] for i in range(len(ids)))) for t in range(T)]
+    if not abs(sim.peak - max([0.0] + agg)) <= tol(sim.peak):
+        obs.violate("peak", f"after a JSON checkpoint: peak {sim.peak!r}, max aggregate recorded current {max([0.0] + agg)!r}", **wit)
+    tot = acnsim.total_energy_delivered(sim)
+    integ = sum(sum(cr[i, t] * volt[st] for i, st in enumerate(ids)) / 1000.0 for t in range(cr.shape[1])) * per / 60.0
+    if not abs(tot - integ) <= tol(integ):
+        obs.violate("total_energy_vs_power_integral", f"after a JSON checkpoint: total {tot!r}, integral {integ!r}", **wit)
+    if len(set(volt.values())) >= 2 and tot > 0:
+        obs.nontrivial()
+    obs.sample = {"kind": "resumed", "checkpoint_period": k, "stations": len(ids), "sessions": len(d["sessions"]), "total_energy": tot}
+
+
 def run_case(case, obs):
     from acnportal import acnsim
     if case.get("stochastic"):
         return _run_stochastic(case, obs)
+    if case.get("resumed_at") is not None:
+        return _run_resumed(case, obs)
     d = case["desc"]
     LOG["cur"] = log = []
     try:
